@@ -322,8 +322,10 @@ func (e *env) run(st Step) (res Result) {
 			res.Err = strp(err.Error())
 			return
 		}
-		buf := &bytes.Buffer{}
-		buf.Write(b)
+		// exact control over the backing array: len(b) bytes, st.N spare bytes of capacity
+		back := make([]byte, len(b), len(b)+st.N)
+		copy(back, b)
+		buf := bytes.NewBuffer(back)
 		if st.Consume > 0 {
 			buf.Next(st.Consume)
 		}
